@@ -69,26 +69,30 @@ type Conn struct {
 	inErr  error
 	outbox []byte
 
-	closed       bool
-	rArmed       bool
-	rFired       bool
-	wFired       bool
-	rDeadline    time.Time
-	blockedW     int // goroutines blocked in Write on the send window
-	parked       int // goroutines blocked in Read with nothing deliverable
-	inRead       int
-	readCalls    int
-	BytesRead    int
-	BytesWrit    int
-	Writes       []int
-	Deadlines    []DeadlineCall
-	CloseCalls   int
-	window       int // manual mode: Write blocks while this many bytes are waiting in the outbox (0 = unbounded)
-	localAddr    net.Addr
-	remoteAddr   net.Addr
-	writeErr     error // injected: next writes fail
-	writeBudget  int
+	closed      bool
+	rArmed      bool
+	rFired      bool
+	wFired      bool
+	rDeadline   time.Time
+	blockedW    int // goroutines blocked in Write on the send window
+	parked      int // goroutines blocked in Read with nothing deliverable
+	inRead      int
+	readCalls   int
+	BytesRead   int
+	BytesWrit   int
+	Writes      []int
+	Deadlines   []DeadlineCall
+	CloseCalls  int
+	window      int // manual mode: Write blocks while this many bytes are waiting in the outbox (0 = unbounded)
+	localAddr   net.Addr
+	remoteAddr  net.Addr
+	writeErr    error // injected: next writes fail
+	writeBudget int
+	// WriteGate, if set (before the connection is used), is called at the very start of every Write with no lock held
+	// and before the data is copied: blocking in it holds the writer INSIDE its Write while something else happens.
+	WriteGate    func(c *Conn, n int)
 	stalled      bool
+	eofWithData  bool
 	writeBudgErr error
 	readBudget   int // inject read error after this many more bytes (-1 = off)
 	readBudgErr  error
@@ -149,6 +153,10 @@ func (c *Conn) Read(b []byte) (int, error) {
 			}
 			c.BytesRead += n
 			l.cond.Broadcast()
+			if c.eofWithData && c.inEOF && len(c.inbox) == 0 {
+				// io.Reader allows the last bytes and the end of the stream in ONE call (n > 0, io.EOF)
+				return n, io.EOF
+			}
 			return n, nil
 		}
 		if c.readBudget == 0 {
@@ -169,6 +177,9 @@ func (c *Conn) Read(b []byte) (int, error) {
 
 func (c *Conn) Write(b []byte) (int, error) {
 	l := c.l
+	if g := c.WriteGate; g != nil {
+		g(c, len(b)) // a scheduler gate: the caller is inside Write, its buffer has not been looked at yet
+	}
 	l.mu.Lock()
 	defer l.mu.Unlock()
 	if c.closed {
@@ -357,6 +368,19 @@ func (c *Conn) Deliver(seg []byte) {
 	}
 	c.l.mu.Lock()
 	c.inbox = append(c.inbox, append([]byte(nil), seg...))
+	c.l.cond.Broadcast()
+	c.l.mu.Unlock()
+}
+
+// DeliverWithEOF appends a final segment and the end of the stream in one step; the Read that takes the last of it
+// returns (n > 0, io.EOF), as buffered / tunnelled connections do (kernel TCP never does).
+func (c *Conn) DeliverWithEOF(seg []byte) {
+	c.l.mu.Lock()
+	if len(seg) > 0 {
+		c.deliverLocked(append([]byte(nil), seg...), 0)
+	}
+	c.inEOF = true
+	c.eofWithData = len(seg) > 0
 	c.l.cond.Broadcast()
 	c.l.mu.Unlock()
 }
